@@ -126,7 +126,8 @@ func (d *Device) handleABSEvent(ie *input.InputEvent) {
 	}
 
 	// Put it always between -1.0 and 1.0 so we can deadzone the center
-	if analog.DeadzoneAtCenter {
+	// (an axis that already reports negative values is centered as it is)
+	if analog.DeadzoneAtCenter && !canBeNegative {
 		value = value*2 - 1.0
 		canBeNegative = true
 	}
